@@ -80,7 +80,7 @@ def rules(ctx: Ctx) -> None:
                     ctx.ob("R05.1", f"stmt-list:mutated:{f.name}", False, loc(f.mod, n), f"`{u(prog.parent(par))[:70]}` mutates the statement list in place")
                 elif isinstance(par, ast.Subscript) and isinstance(par.ctx, (ast.Store, ast.Del)):
                     ctx.ob("R05.1", f"stmt-list:mutated:{f.name}", False, loc(f.mod, n), f"`{u(st)[:70]}` mutates the statement list in place")
-    ctx.floor("stores of the statement list", n_stores, 2)
+    ctx.floor("stores of the statement list", n_stores, 1)
     # one holder appended per iteration, unconditionally
     cfg = flow(prog, ev).cfg
     lnode = next(c for c in cfg.nodes.values() if c.kind == "for" and c.ast is L)
@@ -299,7 +299,7 @@ def rules(ctx: Ctx) -> None:
             owner = f"{f.cls.name}.{f.name}" if f.cls else f.name
             ctx.ob("R05.3", f"per-query-object-not-stored:{owner}", escapes is None, loc(f.mod, n),
                    f"`{u(n)[:60]}` creates an object with per-query state: it must live in a local of the call that uses it" + (f" (stored into `{escapes}`)" if escapes else ""))
-    ctx.floor("constructor sites of extractors / token handlers", n_ctor, 5)
+    ctx.floor("constructor sites of extractors / token handlers", n_ctor, 3)
     for m in prog.mods.values():
         for n in prog.import_time_nodes(m):
             if isinstance(n, ast.Call):
